@@ -1,6 +1,11 @@
 use crate::prelude::*;
 use crate::util::crypto_utils::{hkdf_sha256, sighash_from_heartbeat};
+#[cfg(not(vls_verif))]
 use core::sync::atomic::{AtomicU32, AtomicUsize, Ordering};
+// `--cfg vls_verif` (verification builds only): the key manager's counters become scheduling
+// points of the controlled scheduler, like the prelude's locks
+#[cfg(vls_verif)]
+use shuttle::sync::atomic::{AtomicU32, AtomicUsize, Ordering};
 
 use bitcoin::bip32::{ChildNumber, Xpriv, Xpub};
 use bitcoin::blockdata::opcodes;
